@@ -4,6 +4,7 @@
    application (see C02). *)
 From Coq Require Import List Arith Reals Permutation.
 Import ListNotations.
+From Yaqs Require LinAlg.Unravel.
 From Yaqs Require Import Base.Num Model.NoiseAttrib Proofs.NoiseAttribP Model.DigitalLoop Proofs.DigitalLoopP.
 From Yaqs Require Import Proofs.DissipationP.
 
@@ -41,3 +42,20 @@ Theorem C03_damped_at_own_site : forall L kinds i k, In (i, k) (damp_schedule L 
   exists kd, nth_error kinds k = Some kd /\ damp_here i kd = true.
 Proof. exact damped_at_own_site. Qed.
 Print Assumptions C03_damped_at_own_site.
+
+(* one step of the unravelling, averaged over its branches, is the Lindblad generator to first order in the step — in every ring
+   with an anti-involution (LinAlg/Unravel.v): V = (1 + dt*A)(1 + dt*H) with A anti-self-adjoint (-i * Hamiltonian) and
+   H + H = - sum_k L_k^dag L_k; no-jump branch V rho V^dag (unnormalised) plus the jump branches dt * L_k rho L_k^dag equals
+   rho + dt * ([A, rho] + sum_k (L_k rho L_k^dag - 1/2 {L_k^dag L_k, rho})), for every list of jump operators (stated doubled) *)
+Theorem C03_unravelling_step_is_lindblad_to_first_order :
+  forall (R : Type) (ring0 ring1 : R) (add mul sub : R -> R -> R) (opp : R -> R) (req : R -> R -> Prop)
+         (Rops : @Ncring.Ring_ops R ring0 ring1 add mul sub opp req), @Ncring.Ring R ring0 ring1 add mul sub opp req Rops ->
+  forall dag : R -> R, (forall a b, req (dag (add a b)) (add (dag a) (dag b))) -> req (dag ring1) ring1 ->
+  forall (ls : list R) (A H rho : R), req (dag A) (opp A) -> req (dag H) H -> req (add H H) (opp (Unravel.gram dag ls)) ->
+  req (fst (Unravel.average dag ls A H rho)) rho /\
+  req (add (snd (Unravel.average dag ls A H rho)) (snd (Unravel.average dag ls A H rho)))
+      (add (add (sub (mul A rho) (mul rho A)) (sub (mul A rho) (mul rho A)))
+           (Unravel.sumL ls (fun l => sub (add (mul (mul l rho) (dag l)) (mul (mul l rho) (dag l)))
+                                          (add (mul (mul (dag l) l) rho) (mul rho (mul (dag l) l)))))).
+Proof. exact @Unravel.unravelling_first_order. Qed.
+Print Assumptions C03_unravelling_step_is_lindblad_to_first_order.
